@@ -866,7 +866,7 @@ def run(ck, only_rows=None):
               "BinaryImage sub-image bookkeeping is modelled as concatenation of byte strings (BinaryImage itself: property C16)",
               "mc56 (Vx) images (no IVT): oracle only, with the tool-owned byte ranges of the application masked; not part of the Lean model",
               "AES/SHA/HMAC/CRC of the model are the Lean reference implementations (validated by C09)")
-    draws = ck.budget(3, 40)
+    draws = ck.budget(6, 40)
     rows_sel = list(range(len(ROWS))) if only_rows is None else only_rows
     first_of_shape = {}
     for ri, r in enumerate(ROWS):
